@@ -25,7 +25,7 @@ CLAIMED = {
  'C13': ('proof', 'Theorems own_product_ok, own_complement_ok, own_reverse_ok, own_minimal_quotient_ok, own_minimal_hopcroft_ok, own_language_ok, own_chomsky_ok (+ own_chomsky_struct_ok, own_chomsky_ok_le3): the object-level checker models accept the object the generator function returns; own_nfa2dfa_ok, own_cyk_ok, own_derivation_ok, own_dfa2regexp_ok, own_minimal_*_ok_clean; TEXT level (arbitrary reference text that parses, printed key re-parsed): own_{complement,product,reverse,minimal,nfa2dfa,dfa2regexp,cyk,derivation}_text_ok. Four requested statements were refuted formally (*_stmt_false); each refutation replays on the real library. Tie: apply_command of notebooks/make_notebook.py on generated references + the shipped notebooks + the answer-key printer models. Five recorded findings (KNOWN_FINDINGS.json), each exercised by a fixed witness on every run. Chomsky phases at text level: tie only.', '6 C13'),
  'C19': ('proof', 'Order independence is proved per operation (c19_nfa_accepts, c19_nfa_words, c19_nfaToDfa, c19_hopcroft, c19_minimizers_agree, c19_toRegexp, c19_elimUnit, c19_isomorphic, c19_pda_accepts: identical value / same classes / same language for every scheduler). Argument immutability at the alias sites is proved in the heap micro-model (repetitionCopied_frame, concatCopied_frame, *_operand(s)_intact; the original shared versions are proved to mutate: *_mutates). PARTIAL: heap-level immutability outside the modelled alias sites, history independence and process-level hash-seed independence are carried by the harness (argument snapshots around every call, repeated calls, logging on/off, random call prefixes, in-place edits, 2-8 fresh processes with different PYTHONHASHSEED).', '6 C19'),
  'C16': ('proof', 'Theorems parse_print_dfa, parse_print_nfa, parse_print_pda, parse_print_tm (+ _raw variants): for every valid automaton whose state names are \\w+ and not keywords of the format and whose symbols are printable (single characters of the label classes for PDA/TM), parsing the printed text returns an automaton with the same states, alphabets, initial / accepting / halting states and transition function (F empty, alphabet empty, isolated states, several labels per edge included). parseFull_printFull, parseSimple_printSimple (both regexp syntaxes: same language, same printed form), parse_print_cfg (simple grammar format, Printable grammars); the Lean reference parsers / printers (Model/RegexpText.lean, Model/CfgText.lean) are tied to the ANTLR / regex based implementation by correspondence.', '6 C16'),
- 'C17': ('proof', 'Theorems parseX_ok_valid for the four parsers (no parser ever returns an object violating its class invariant, for EVERY text), parseX_builds (the returned automaton is exactly the documented function of the parsed lines: declared or derived state set and alphabets, default epsilon / blank, last TM transition wins), rejection theorems (nondeterministic or non-total DFA, undeclared state, no / several initial states, repeated declaration, transition with fewer than three words), parseDfa/Nfa_ok_valid_gen (any state-label pattern: valid, duplicate-free states and keys), parseSimpleCfg_ok_valid. Rendered layouts and single-fault corruptions are the tie.', '6 C17'),
+ 'C17': ('proof', 'Theorems parseX_ok_valid for the four parsers (no parser ever returns an object violating its class invariant, for EVERY text), parseX_builds (the returned automaton is exactly the documented function of the parsed lines: declared or derived state set and alphabets, default epsilon / blank, last TM transition wins), rejection theorems (nondeterministic or non-total DFA, undeclared state, no / several initial states, repeated declaration, transition with fewer than three words), parseDfa/Nfa_ok_valid_gen (any state-label pattern: valid, duplicate-free states and keys), parseSimpleCfg_ok_valid; layout independence proved: comment / blank lines, white space, labels per line, ANY line order (parseLines_perm, parseDfa/Nfa_lines_perm, parse_any_layout_dfa), rejected texts stay rejected under permutation. Rendered layouts and single-fault corruptions are the tie.', '6 C17'),
  'C14': ('proof', 'Theorems product_valid/product_*_lang, complement_*, mapStates_*, noPrefix_*, makeTotal_*, freshState_fresh and the finite-language helper specs (lang*_spec, wordsOfLength_spec, wordsUpTo_spec). and reachableStates_zero/pos, removeUnreachable_spec, noExtend_spec, reverse_valid, reverse_lang. Product names (p,q): theorems for comma-free state names; with commas the recorded finding product-name-collision.', '6 C14'),
 }
 
